@@ -1,7 +1,6 @@
 package main
 
 import (
-	"encoding/json"
 	"fmt"
 	"sort"
 	"strings"
@@ -65,15 +64,12 @@ func (w *world) rawCall(op Op) rawOut {
 
 		return rawOut{obs: Obs{Out: "key"}, kid: kp.KeyID}
 	case "get":
-		b, err := x.Get(w.tokenString(op.Tok), wallet.Metadata, contentID(op.C))
+		b, err := x.Get(w.tokenString(op.Tok), ctOf(op.C), w.idStr(op.C))
 		if err != nil {
 			return rawOut{obs: Obs{Out: classify(err), Err: errStr(err)}}
 		}
 
-		var c content
-		_ = json.Unmarshal(b, &c)
-
-		return rawOut{obs: Obs{Out: "val", N: c.V}}
+		return rawOut{obs: Obs{Out: "val", N: w.valueOf(w.iuser[op.I], op.C, b)}}
 	}
 
 	return rawOut{obs: Obs{Out: "err", Err: "not a concurrent op"}}
@@ -95,9 +91,9 @@ func tieable(cc ConcCase) bool {
 }
 
 func coqOut(o Obs) string {
-	s := coqObs(o)
-	// coqObs prints "(out, rows, keys)": keep the first component
-	return strings.TrimPrefix(s[:strings.Index(s, ", [")], "(")
+	s := coqObs(o, &o)
+	// coqObs prints "(out, None)" here: keep the first component
+	return strings.TrimSuffix(strings.TrimPrefix(s, "("), ", None)")
 }
 
 func runConc(kind string, cc ConcCase) *hx.Record {
@@ -105,6 +101,7 @@ func runConc(kind string, cc ConcCase) *hx.Record {
 	defer s.w.cleanup()
 
 	w := s.w
+	cc = ConcCase{Pre: normOps(cc.Pre), Conc: normOps(cc.Conc), Post: normOps(cc.Post)}
 	s.rec.Case = map[string]interface{}{"conc": cc}
 	s.dist = []string{fmt.Sprintf("conc-width=%d", len(cc.Conc))}
 
@@ -191,7 +188,9 @@ func runConc(kind string, cc ConcCase) *hx.Record {
 			issued++
 		case op.Kind == "key" && o.Out == "key":
 			w.kids = append(w.kids, outs[j].kid)
-			o.N = len(w.kids) - 1
+			w.kpubs = append(w.kpubs, nil)
+			w.nkeys++
+			o.N = w.nkeys - 1
 		}
 
 		// a token that is foreign or was never issued is illegitimate in every interleaving
@@ -222,6 +221,8 @@ func runConc(kind string, cc ConcCase) *hx.Record {
 		}
 	}
 
+	s.finish()
+
 	if tieable(cc) {
 		pre := make([]string, len(cc.Pre))
 		for i, o := range cc.Pre {
@@ -229,8 +230,11 @@ func runConc(kind string, cc ConcCase) *hx.Record {
 		}
 
 		preObs := make([]string, nPre)
+		prev := &Obs{Rows: [][3]int{}, Keys: []int{}}
+
 		for i := 0; i < nPre; i++ {
-			preObs[i] = coqObs(s.obs[i])
+			preObs[i] = coqObs(s.obs[i], prev)
+			prev = &s.obs[i]
 		}
 
 		co := make([]string, len(cc.Conc))
@@ -244,8 +248,11 @@ func runConc(kind string, cc ConcCase) *hx.Record {
 		}
 
 		postObs := make([]string, len(s.obs)-nPre)
+		prev = nil // the first dump after the overlap is always printed
+
 		for i := nPre; i < len(s.obs); i++ {
-			postObs[i-nPre] = coqObs(s.obs[i])
+			postObs[i-nPre] = coqObs(s.obs[i], prev)
+			prev = &s.obs[i]
 		}
 
 		s.rec.Coq = "Conc {| k_pre := " + hx.CoqList(pre) + "; k_pre_obs := " + hx.CoqList(preObs) +
